@@ -9,7 +9,10 @@ import (
 	"os"
 	"path/filepath"
 	"strings"
+	"sync/atomic"
+	"syscall"
 	"testing"
+	"time"
 	"unicode/utf8"
 
 	"github.com/DemoHn/Zn/pkg/exec"
@@ -113,6 +116,41 @@ func checkFile(c fileCase) (fails []h.Failure) {
 					}
 				}
 			}
+			judge(&fails, desc, valid, wantNoBOM, got, rerr, true)
+		case "fifo":
+			// the same bytes delivered through a named pipe in several parts (cut at the byte
+			// offsets in Chunks, possibly inside a character): a read returns as soon as a part
+			// has arrived, i.e. with FEWER bytes than asked for although the source has not ended
+			p := filepath.Join(tmpDir, fmt.Sprintf("fifo-%d-%d", os.Getpid(), fifoSeq.Add(1)))
+			if err := syscall.Mkfifo(p, 0o600); err != nil {
+				fails = append(fails, h.Failure{Sig: "decode/harness-mkfifo", Msg: err.Error()})
+				return
+			}
+			defer os.Remove(p)
+			go func() {
+				w, err := os.OpenFile(p, os.O_WRONLY, 0)
+				if err != nil {
+					return
+				}
+				defer w.Close()
+				prev := 0
+				for _, cut := range append(append([]int{}, c.Chunks...), len(b)) {
+					if cut > len(b) {
+						cut = len(b)
+					}
+					if cut > prev {
+						w.Write(b[prev:cut])
+						prev = cut
+						time.Sleep(3 * time.Millisecond)
+					}
+				}
+			}()
+			fs, err := zio.NewFileStream(p)
+			if err != nil {
+				fails = append(fails, h.Failure{Sig: "decode/open-failed", Msg: err.Error()})
+				return
+			}
+			got, rerr := fs.ReadAll()
 			judge(&fails, desc, valid, wantNoBOM, got, rerr, true)
 		case "bytes":
 			got, rerr := zio.NewByteStream(b).ReadAll()
@@ -265,6 +303,8 @@ func corrupt(t *rapid.T, b []byte) ([]byte, string) {
 	}
 }
 
+var fifoSeq atomic.Int64
+
 func TestRandomFiles(t *testing.T) {
 	rapid.Check(t, func(t *rapid.T) {
 		b := genValid().Draw(t, "valid")
@@ -276,10 +316,19 @@ func TestRandomFiles(t *testing.T) {
 			note = "[corruption: " + k + "]"
 			labels = append(labels, "corrupt:"+k)
 		}
-		drv := rapid.SampledFrom([]string{"file", "bytes", "chunks", "chunks", "execute"}).Draw(t, "driver")
+		drv := rapid.SampledFrom([]string{"file", "bytes", "chunks", "chunks", "execute", "file", "bytes", "chunks", "chunks", "execute", "fifo"}).Draw(t, "driver")
 		var chunks []int
 		if drv == "chunks" {
 			chunks = rapid.SliceOfN(rapid.OneOf(rapid.IntRange(1, 9), rapid.IntRange(1, 9000)), 1, 6).Draw(t, "chunks")
+		}
+		if drv == "fifo" && len(b) > 0 {
+			// ascending cut offsets
+			n := rapid.IntRange(1, 3).Draw(t, "ncuts")
+			at := 0
+			for i := 0; i < n && at < len(b); i++ {
+				at += rapid.IntRange(1, len(b)-at).Draw(t, "cut")
+				chunks = append(chunks, at)
+			}
 		}
 		c := mk(b, drv, chunks, note)
 		if !utf8.Valid(b) {
